@@ -80,6 +80,7 @@ KEYWORDS = ["SECRETKW", "kw-1", "kw+1", "srv[1]"]
 # configured exclusion patterns and the oracle's own, independently written matcher for each
 PAT_PLAIN = ["PAT"]
 PAT_REGEX = ["PAT", "P[0-9]+T", "Q[[:digit:]]+R", "^192\\.168\\.", "K\\d\\dZ", "\\bBND\\b"]
+PAT_VARIANTS = {"plain-empty": [""], "regex-empty": {"regex": [""]}}     # the empty pattern is contained in every line
 _ORACLE_PLAIN = [lambda l: "PAT" in l]
 _ORACLE_REGEX = [lambda l: "PAT" in l,
                  re.compile(r"P[0123456789]+T").search,
@@ -90,12 +91,13 @@ _ORACLE_REGEX = [lambda l: "PAT" in l,
 
 # secrets from the documented class, one per token position so that a survivor can be attributed
 SECRETS = ["S3cr_t!1", "h@nter/2", "Pa$$+w=3", "q&W*e(r)4", "zX^9#-k5", "m%N+7=b6"]
-PW_FORMS = ["password=%s", "password: %s", "password %s", "password=\"%s", "password --md5 %s"]
+PW_FORMS = ["password=%s", "password: %s", "password %s", "password=\"%s", "password --md5 %s", "password\t= %s"]
 
 TOKENS = (
     [["ip", t] for t in ("10.1.1.1", "10.1.1.10", "110.1.1.1", "192.168.0.254", "255.255.255.255")]
     + [["lo", "127.0.0.1"]]
-    + [["host", t] for t in (SHORT, FQDN, "db.corp.test", "a.b.corp.test")]
+    # the last one: another host of the domain (domain spelled as configured) whose LABEL has upper case, '-', a digit
+    + [["host", t] for t in (SHORT, FQDN, "db.corp.test", "a.b.corp.test", "Db-2.corp.test")]
     # the third is made of 00/ff octets only but is neither all-zero nor broadcast: it must be obfuscated
     + [["mac", t] for t in ("aa:bb:cc:dd:ee:ff", "AA-BB-CC-DD-EE-FF", "00:ff:00:ff:00:ff")]
     + [["mac0", t] for t in ("00:00:00:00:00:00", "ff:ff:ff:ff:ff:ff")]
@@ -106,7 +108,7 @@ TOKENS = (
 )
 NT = len(TOKENS)
 
-D_FULL = ["", " ", ":", "/", ",", "=", "(", ")", "[", "]", "\"", "-"]      # "" = line start / end
+D_FULL = ["", " ", ":", "/", ",", "=", "(", ")", "[", "]", "\"", "-", "\t"]      # "" = line start / end
 D_RED = ["", " ", ":", "-", "/", "="]
 D_MIN = ["", " ", ":"]
 # Right-hand neighbours offered to IPv4 tokens only: the statement puts no delimiter condition on IPv4 addresses ("no
@@ -115,12 +117,21 @@ D_MIN = ["", " ", ":"]
 # must be obfuscated as well.  (A following digit would make it a different address; a PRECEDING word character
 # stays excluded, DESIGN.md.)  The token that follows such a neighbour is glued to a word character: not demanded.
 IPV4_RIGHT = ["x", "_"]
+# Glue.  The statement puts a delimiter condition on MAC addresses only.  A keyword / an exclusion pattern / a host name
+# "occurs" wherever its text stands, a `password` key is a key whatever precedes it (`db_password`), an IPv4 address is
+# one whatever non-digit follows it.  So every outer position additionally offers the word character 'x' and every inner
+# position 'x' and "" (two tokens with nothing between them); oracle._demanded() says per kind what is still demanded.
+WORD_NB = ["x"]
+GLUE = ["", "x"]
+# filters of the allow-list configuration: every token of the alphabet contains one of these characters, so the filter
+# keeps every line (the point is the code path "allowlist is not None", not the filtering)
+ALLOW_KEYS = ["0", "1", "5", "a", "A", "e", "s", "z", "P", "Q", "K", "B", "D", "S"]
 
 _ALNUM = "abcdefghijklmnopqrstuvwxyzABCDEFGHIJKLMNOPQRSTUVWXYZ0123456789"
 WORD = frozenset(_ALNUM + "_")
 SECRET_CLASS = frozenset(_ALNUM + "_!@#$%^&*()+=/-")
 # delimiters no recogniser of any obfuscator looks at: used to decide when an exempted token is isolated
-INERT = frozenset(["", " ", ",", "[", "]", "\"", "\n"])
+INERT = frozenset(["", " ", ",", "[", "]", "\"", "\n", "\t"])
 
 DEFAULT_CFG = {"obf": 1, "hn": 1, "mac": 1, "v6": 1, "no_redact": 0, "no_obf": [], "pat": "regex", "fqdn": FQDN}
 OBF_NAMES = ["hostname", "ip", "ipv6", "keyword", "mac", "password"]
@@ -136,7 +147,18 @@ def configs():
         out.append(dict(DEFAULT_CFG, no_obf=[n]))
     out.append(dict(DEFAULT_CFG, pat="plain"))
     out.append(dict(DEFAULT_CFG, fqdn=SHORT))
+    out.append(dict(DEFAULT_CFG, allow=1))          # an allow-list is passed (clean_content / clean_file only)
     return out
+
+
+def keyword_list_variants():
+    """keyword lists with internal structure (used by the part "kwlists"): >= 10 entries (keyword1 is a prefix of
+    keyword10), one keyword a prefix of another in both orders, a keyword inside the substitute text, a keyword equal
+    to a substitute that gets issued"""
+    return [["K%d" % i for i in range(12)],
+            ["SECRET", "SECRETKW"], ["SECRETKW", "SECRET"],
+            ["SECRETKW", "word"], ["word", "SECRETKW"], ["key", "SECRETKW"],
+            ["SECRETKW", "keyword0"], ["keyword1", "SECRETKW"]]
 
 
 BOUNDS = {
@@ -212,8 +234,12 @@ class _Config(object):
 
 def build_cleaner(cfg, scratch=None):
     from insights.cleaner import Cleaner
-    pats = list(PAT_PLAIN) if cfg["pat"] == "plain" else {"regex": list(PAT_REGEX)}
-    c = Cleaner(_Config(cfg, scratch), {"keywords": list(KEYWORDS), "patterns": pats}, fqdn=cfg["fqdn"])
+    if cfg["pat"] in PAT_VARIANTS:
+        pats = PAT_VARIANTS[cfg["pat"]]
+        pats = list(pats) if isinstance(pats, list) else {"regex": list(pats["regex"])}
+    else:
+        pats = list(PAT_PLAIN) if cfg["pat"] == "plain" else {"regex": list(PAT_REGEX)}
+    c = Cleaner(_Config(cfg, scratch), {"keywords": list(cfg.get("kw") or KEYWORDS), "patterns": pats}, fqdn=cfg["fqdn"])
     c.report_dir = scratch or "/dev/shm/verif-c08-unused"      # never written: no report is generated here
     return c
 
@@ -221,64 +247,106 @@ def build_cleaner(cfg, scratch=None):
 _SPECS = {}
 
 
-def _spec_for(no_redact, no_obf):
+def _spec_for(no_redact, no_obf, name="the_file"):
     """A real registry point + simple_file implementation carrying the per-spec exemptions; built once per
-    (exemption) per process - the components are never evaluated by the engine, only called directly."""
-    key = (bool(no_redact), tuple(no_obf))
+    (exemption, file name) per process - the components are never evaluated by the engine, only called directly."""
+    key = (bool(no_redact), tuple(no_obf), name)
     if key not in _SPECS:
         from insights.core.context import HostContext
         from insights.core.spec_factory import RegistryPoint, SpecSet, simple_file
         n = len(_SPECS)
         rp = RegistryPoint(no_redact=bool(no_redact), no_obfuscate=list(no_obf))
         base = type("VerifC08Specs%d" % n, (SpecSet,), {"the_file": rp})
-        impl = simple_file("/data/the_file", context=HostContext)
+        impl = simple_file("/data/" + name, context=HostContext)
         type("VerifC08Impl%d" % n, (base,), {"the_file": impl})
         _SPECS[key] = impl
     return _SPECS[key]
 
 
+NETSTAT = "netstat_-neopa"        # the file name that switches the IPv4 keep-width variant on
+WIDTH_PATHS = ("content-width", "file-netstat", "write-netstat")
+PATHS = ("content", "content-str", "content-2calls", "content-width", "file", "file-netstat", "write", "write-netstat",
+         "dswrite")
+
+
+def _split_written(data):
+    return data.split("\n")
+
+
 def run_path(path, cfg, in_lines, scratch):
-    """Executes the real code. Returns (output lines without line terminators, cleaner)."""
+    """Executes the real code. Returns (output lines without line terminators, cleaner).
+      content         clean_content(list)                     content-str     clean_content(str) (single line only)
+      content-2calls  one clean_content([line]) per line on ONE Cleaner (state carried between calls)
+      content-width   clean_content(list, width=True)         file            clean_file on a real file
+      file-netstat    clean_file on a file named netstat_-neopa (keep-width variant)
+      write           SpecSet/RegistryPoint/simple_file -> TextFileProvider.write under a HostContext
+      write-netstat   the same for /data/netstat_-neopa       dswrite         DatasourceProvider.write under a HostContext"""
     c = build_cleaner(cfg, scratch)
     no_obf = list(cfg["no_obf"])
+    no_red = bool(cfg["no_redact"])
+    allow = dict((k, 100000) for k in ALLOW_KEYS) if cfg.get("allow") else None
     if path == "content":
-        out = c.clean_content(list(in_lines), no_obfuscate=no_obf, no_redact=bool(cfg["no_redact"]))
+        return c.clean_content(list(in_lines), no_obfuscate=no_obf, no_redact=no_red, allowlist=allow), c
+    if path == "content-width":
+        return c.clean_content(list(in_lines), no_obfuscate=no_obf, no_redact=no_red, allowlist=allow, width=True), c
+    if path == "content-str":
+        if len(in_lines) != 1:
+            raise ValueError("content-str takes one line")
+        out = c.clean_content(in_lines[0], no_obfuscate=no_obf, no_redact=no_red, allowlist=allow)
+        return ([] if out is None else [out]), c
+    if path == "content-2calls":
+        out = []
+        for l in in_lines:
+            out.extend(c.clean_content([l], no_obfuscate=no_obf, no_redact=no_red, allowlist=allow))
         return out, c
-    if path == "file":
-        fn = os.path.join(scratch, "f")
+    if path in ("file", "file-netstat"):
+        fn = os.path.join(scratch, "f" if path == "file" else NETSTAT)
         with open(fn, "w") as fh:
             fh.write("".join(l + "\n" for l in in_lines))
-        c.clean_file(fn, no_obfuscate=no_obf, no_redact=bool(cfg["no_redact"]))
-        if not os.path.exists(fn):
-            return [], c
-        with open(fn) as fh:
-            data = fh.read()
-        os.remove(fn)
+        try:
+            c.clean_file(fn, no_obfuscate=no_obf, no_redact=no_red, allowlist=allow)
+            if not os.path.exists(fn):
+                return [], c
+            with open(fn) as fh:
+                data = fh.read()
+        finally:
+            if os.path.exists(fn):
+                os.remove(fn)
         return data.split("\n")[:-1] if data.endswith("\n") else data.split("\n"), c
-    if path == "write":
-        from insights.core.context import HostContext
-        from insights.core.exceptions import ContentException
-        root = os.path.join(scratch, "root")
-        src = os.path.join(root, "data", "the_file")
-        dst = os.path.join(scratch, "out", "data", "the_file")
+    if cfg.get("allow"):
+        raise ValueError("the allow-list configuration is defined for clean_content / clean_file only")
+    from insights.core.context import HostContext
+    from insights.core.exceptions import ContentException
+    root = os.path.join(scratch, "root")
+    if path in ("write", "write-netstat"):
+        name = "the_file" if path == "write" else NETSTAT
+        src = os.path.join(root, "data", name)
+        dst = os.path.join(scratch, "out", "data", name)
         if not os.path.isdir(os.path.dirname(src)):
             os.makedirs(os.path.dirname(src))
         with open(src, "w") as fh:
             fh.write("".join(l + "\n" for l in in_lines))
         if os.path.exists(dst):
             os.remove(dst)
-        spec = _spec_for(cfg["no_redact"], no_obf)
-        broker = {HostContext: HostContext(root=root), "cleaner": c}
-        provider = spec(broker)
-        try:
-            provider.write(dst)
-        except ContentException:
-            return [], c            # empty after cleaning: nothing is written
-        with open(dst) as fh:
-            data = fh.read()
-        os.remove(dst)
-        return data.split("\n"), c
-    raise ValueError(path)
+        spec = _spec_for(cfg["no_redact"], no_obf, name)
+        provider = spec({HostContext: HostContext(root=root), "cleaner": c})
+    elif path == "dswrite":
+        from insights.core.spec_factory import DatasourceProvider
+        dst = os.path.join(scratch, "out", "data", "ds_file")
+        if os.path.exists(dst):
+            os.remove(dst)
+        provider = DatasourceProvider(list(in_lines), "data/ds_file", root=root, ctx=HostContext(root=root), cleaner=c,
+                                      no_obfuscate=no_obf, no_redact=no_red)
+    else:
+        raise ValueError(path)
+    try:
+        provider.write(dst)
+    except ContentException:
+        return [], c            # empty after cleaning: nothing is written
+    with open(dst) as fh:
+        data = fh.read()
+    os.remove(dst)
+    return data.split("\n"), c
 
 
 # ---- oracle ----------------------------------------------------------------------------------
@@ -288,6 +356,8 @@ _HOST_IN_DOMAIN = re.compile(r"[A-Za-z0-9_-]\.corp\.test")
 
 
 def _matches(cfg, line):
+    if cfg["pat"] in PAT_VARIANTS:
+        return True                     # the empty pattern: contained in / found in every line
     fs = _ORACLE_PLAIN if cfg["pat"] == "plain" else _ORACLE_REGEX
     for f in fs:
         if f(line):
@@ -324,6 +394,23 @@ def _adjacent(text, s, e):
     return before, after
 
 
+def _demanded(kind, before, after):
+    """Is the survival clause of `kind` demanded for a token with these neighbour characters ("" = line boundary)?
+      mac : only when delimited by non-word characters on both sides (the statement says so)
+      ip  : not when glued to a preceding word character or '.' (DESIGN.md exclusion) and not when a digit or '.' follows
+            (that is a different / longer dotted number); any other right-hand neighbour is demanded
+      host, kw, pat, pw : always - the statement speaks of occurrences / of a line containing the pattern / of the secret
+            that follows a password key, with no delimiter condition (lo, mac0, word carry no clause)"""
+    if kind == "mac":
+        return before not in WORD and after not in WORD
+    if kind == "ip":
+        return before not in WORD and before != "." and not (after.isdigit() or after == ".")
+    return True
+
+
+HOST_GLUE = {"-": "hyphen", "": "glued", "x": "glued", "_": "glued"}     # characters of the host-name pattern's class
+
+
 def _is_domain_host(x):
     return (not isinstance(x, str)) and x[0] == "host" and x[1].endswith("." + DOMAIN)
 
@@ -334,7 +421,8 @@ def _explainable(st, ei, kind, before, after):
       mac : the address is directly preceded / followed by ':' or '-'  -> that character (mac.py look-around)
       host: the name is joined by '-' to a neighbouring host name of the domain whose text also stands earlier on
             the same line -> "hyphen-compound-after-earlier-occurrence" (hostname.py replaces the earlier, shorter
-            match everywhere first, after which the longer compound match is no longer found in the line)"""
+            match everywhere first, after which the longer compound match is no longer found in the line); joined by
+            another character of the host-name pattern's class or by nothing -> "glued-compound-after-..."."""
     if kind == "mac":
         if before in (":", "-"):
             return before
@@ -343,18 +431,18 @@ def _explainable(st, ei, kind, before, after):
         return ""
     if kind == "host" and _is_domain_host(st[ei]):
         partners = []
-        if ei >= 2 and st[ei - 1] == "-" and _is_domain_host(st[ei - 2]):
-            partners.append(ei - 2)
-        if ei + 2 < len(st) and st[ei + 1] == "-" and _is_domain_host(st[ei + 2]):
-            partners.append(ei + 2)
-        for pi in partners:
+        if ei >= 2 and st[ei - 1] in HOST_GLUE and _is_domain_host(st[ei - 2]):
+            partners.append((ei - 2, HOST_GLUE[st[ei - 1]]))
+        if ei + 2 < len(st) and st[ei + 1] in HOST_GLUE and _is_domain_host(st[ei + 2]):
+            partners.append((ei + 2, HOST_GLUE[st[ei + 1]]))
+        for pi, how in partners:
             for j in range(1, min(ei, pi), 2):
-                if not isinstance(st[j], str) and st[j][1] == st[pi][1] and st[j + 1] != "-":
-                    return "hyphen-compound-after-earlier-occurrence"
+                if not isinstance(st[j], str) and st[j][1] == st[pi][1] and st[j + 1] not in HOST_GLUE:
+                    return how + "-compound-after-earlier-occurrence"
     return ""
 
 
-def oracle(cfg, structs, in_lines, out_lines, cleaner):
+def oracle(cfg, structs, in_lines, out_lines, cleaner, path="content"):
     """-> (violations [(clause, expected, observed, features)], statuses per token)"""
     v = []
     no_obf = cfg["no_obf"]
@@ -398,12 +486,14 @@ def oracle(cfg, structs, in_lines, out_lines, cleaner):
 
     # -- keywords (configured, wherever they are)
     if kw_on:
-        for kw in KEYWORDS:
+        for kw in (cfg.get("kw") or KEYWORDS):
             if kw in masked:
                 v.append(("keyword:survives", "keyword %r absent" % kw, raw, {"kind": "kw"}))
 
     # -- IPv4-shaped survivors that are neither loopback nor an issued substitute
-    if ip_on:
+    # (not on the keep-width paths: that variant deliberately removes / inserts characters next to the substitute, and
+    #  what is left of a neighbouring token can complete a dotted number - an artefact, not an original address)
+    if ip_on and path not in WIDTH_PATHS:
         issued = set(subs)
         for m in _IPV4_SHAPED.finditer(raw):
             a = m.group(0)
@@ -478,10 +568,8 @@ def oracle(cfg, structs, in_lines, out_lines, cleaner):
             statuses.append(kind + "D")
         else:
             statuses.append(kind + ("K" if (o["needle"] or t) in raw else "M"))
-        if before in WORD:
-            continue                            # glued to a preceding word character: not demanded
-        if after in WORD and not (kind == "ip" and not after.isdigit()):
-            continue                            # glued to a following one: not demanded, except IPv4 (see IPV4_RIGHT)
+        if not _demanded(kind, before, after):
+            continue
         feats = {"kind": kind}
         isolated = before in INERT and after in INERT
         alive = (li, ei) in survivors
@@ -507,8 +595,13 @@ def oracle(cfg, structs, in_lines, out_lines, cleaner):
         elif kind == "pw":
             if pw_on:
                 if alive and not _shadowed(st, ei):
-                    pos = ("key-inside-earlier-secret-run-after-keyword-substitution"
-                           if (kw_on and _shadowed(st, ei, kw_substituted=True)) else "ordinary")
+                    pos = "ordinary"
+                    if kw_on and _shadowed(st, ei, kw_substituted=True):
+                        pos = "key-inside-earlier-secret-run-after-keyword-substitution"
+                    elif path in WIDTH_PATHS and ei >= 2 and st[ei - 1] == " " and st[ei - 2][0] == "ip":
+                        # netstat keep-width: the IPv4 substitute is longer than the address, the surplus is taken
+                        # out of what follows the next blank - here the first characters of the `password` key
+                        pos = "key-truncated-by-ipv4-keep-width"
                     v.append(("password:secret-survives", "secret %s masked" % o["needle"], raw,
                               {"kind": "pw", "position": pos}))
             elif isolated and oline is not None and t not in oline:
@@ -538,8 +631,13 @@ def execute(path, cfg, structs, scratch):
     try:
         out_lines, cleaner = run_path(path, cfg, in_lines, scratch)
     except Exception as ex:          # the cleaner must cope with every content of the alphabet
+        if path in WIDTH_PATHS:
+            # The keep-width variant of the IPv4 substitution (netstat) raises on the unchanged tree whenever the
+            # address ends the line or a second address follows (IndexError inside _sub_ip_keep_width -> SubIPError).
+            # Nothing is output then, so nothing survives: an outcome for C08, not a violation.
+            return [], False, "raises-keep-width"
         return [("cleaning:raises", "no exception", repr(ex), {"kind": "exception"})], False, "raises"
-    vio, statuses = oracle(cfg, structs, in_lines, out_lines, cleaner)
+    vio, statuses = oracle(cfg, structs, in_lines, out_lines, cleaner, path)
     nsens = sum(1 for s in statuses if s[:-1] in SENSITIVE_KINDS)
     return vio, (nsens >= 2 and out_lines != in_lines), "+".join(sorted(statuses))
 
@@ -557,43 +655,66 @@ def replay(case):
 
 # ---- enumeration -----------------------------------------------------------------------------
 
-def _pair_delims(tier, ci):
-    """-> (list of (d0, d2) outer pairs, list of inner delimiters) for the pair lines of configuration ci"""
-    if tier == "quick":
-        if ci == 0:
-            return list(itertools.product(D_RED, D_RED)), D_RED[1:]
-        return [("", ""), (" ", " "), (":", ":")], D_RED[1:]       # single-token boundaries: see "singles" (full D)
-    if ci == 0:
-        return list(itertools.product(D_FULL, D_FULL)), D_FULL[1:]
-    return list(itertools.product(D_RED, D_RED)), D_FULL[1:]
-
-
-def _two_line_outer(tier):
-    return [("", ""), (" ", ":")] if tier == "quick" else list(itertools.product(D_MIN, D_MIN))
-
-
-def _two_line_singles(tier):
-    """the single-token lines two-line contents are built from: (token, d0, d2)"""
-    out = [(t, d0, d2) for (d0, d2) in _two_line_outer(tier) for t in range(NT)]
-    out += [(t, "", w) for t in range(NT) if _is_ip(t) for w in IPV4_RIGHT]
-    return out
-
-
 def _is_ip(ti):
     return TOKENS[ti][0] == "ip"
 
 
-def _after(ti, base):
-    """delimiter choices for the position directly after token ti"""
-    return list(base) + (IPV4_RIGHT if _is_ip(ti) else [])
+def _left(base):
+    """choices for d0: the given delimiters plus a word character"""
+    return list(base) + WORD_NB
 
 
-def _outer_after(t_last, outer):
-    """(d0, d_last) choices: the given pairs, plus every d0 with the IPv4-only right-hand neighbours"""
-    if not _is_ip(t_last):
-        return outer
-    d0s = list(dict.fromkeys(d0 for d0, _ in outer))
-    return list(outer) + [(d0, w) for d0 in d0s for w in IPV4_RIGHT]
+def _right(ti, base):
+    """choices for the delimiter that ends the line after token ti: plus a word character ('x'; IPv4 also '_')"""
+    return list(base) + (IPV4_RIGHT if _is_ip(ti) else WORD_NB)
+
+
+def _inner(ti, base, glue=GLUE):
+    """choices for the delimiter between token ti and the next token: plus glue ("" and 'x'; after IPv4 also '_')"""
+    out = list(base) + list(glue)
+    for w in (IPV4_RIGHT if _is_ip(ti) else []):
+        if w not in out:
+            out.append(w)
+    return out
+
+
+DIAG3 = [("", ""), (" ", " "), (":", ":")]
+
+
+def _pair_space(tier, ci, t1, t2):
+    """(d0, d1, d2) of the pair lines of configuration ci (0 = default)"""
+    if ci == 0:
+        base = D_RED if tier == "quick" else D_FULL
+        return [(d0, d1, d2) for d0 in _left(base) for d1 in _inner(t1, base[1:]) for d2 in _right(t2, base)]
+    if tier == "quick":
+        # single-token boundaries: see "singles" (full D); '/' and '=' (secret-class interplay): default configuration
+        outer = DIAG3 + ([("", w) for w in IPV4_RIGHT] if _is_ip(t2) else [])
+        return [(d0, d1, d2) for (d0, d2) in outer for d1 in _inner(t1, [" ", ":", "-"], glue=[""])]
+    outer = [(d0, d2) for d0 in D_RED for d2 in (D_RED + (IPV4_RIGHT if _is_ip(t2) else []))]
+    return [(d0, d1, d2) for (d0, d2) in outer for d1 in _inner(t1, D_FULL[1:], glue=[""])]
+
+
+def _two_line_singles(tier):
+    """the lines two-line contents are built from: (token or None for the blank line, d0, d2)"""
+    outer = [("", ""), (" ", ":")] if tier == "quick" else list(itertools.product(D_MIN, D_MIN))
+    out = [(t, d0, d2) for (d0, d2) in outer for t in range(NT)]
+    out += [(t, "", w) for t in range(NT) if _is_ip(t) for w in IPV4_RIGHT]
+    out.append((None, "", ""))
+    return out
+
+
+def _one_line(entry, pos):
+    t, d0, d2 = entry
+    return [""] if t is None else mk_line([t], [d0, d2], pos)
+
+
+def mk_line_tok(tokens, delims):
+    """like mk_line, for explicit [kind, text] tokens"""
+    out = [delims[0]]
+    for i, t in enumerate(tokens):
+        out.append(list(t))
+        out.append(delims[i + 1])
+    return out
 
 
 def units(tier, seed):
@@ -619,11 +740,14 @@ def units(tier, seed):
         # quick has no general triples; the host-name tokens alone are cheap and are where sequential textual
         # replacement interferes with itself (thorough covers them inside "triples")
         us.append({"part": "hosttriples"})
+    us.append({"part": "width"})
+    us.append({"part": "patvariants"})
+    us.append({"part": "kwlists"})
     return us
 
 
 def unit_weight(u):
-    return {"triples": 5, "pairs": 3, "twolines": 2, "paths": 2}.get(u["part"], 1)
+    return {"triples": 5, "pairs": 3, "twolines": 2, "paths": 2, "width": 2}.get(u["part"], 1)
 
 
 def run_unit(unit, tier):
@@ -633,12 +757,12 @@ def run_unit(unit, tier):
     part = unit["part"]
     cfgs = configs()
     scratch = mkscratch("c08")
-    npath = {"content": 0, "file": 0, "write": 0}
+    npath = {}
     try:
         def go(path, cfg, structs):
             vio, nontrivial, outcome = execute(path, cfg, structs, scratch)
             res.evals += 1
-            npath[path] += 1
+            npath[path] = npath.get(path, 0) + 1
             if nontrivial:
                 res.nontrivial += 1
             res.outcomes.add(outcome)
@@ -647,73 +771,122 @@ def run_unit(unit, tier):
 
         if part == "pairs":
             cfg = cfgs[unit["cfg"]]
-            outer, inner = _pair_delims(tier, unit["cfg"])
             for t1 in unit["t1"]:
                 for t2 in range(NT):
-                    for d0, d2 in _outer_after(t2, outer):
-                        for d1 in _after(t1, inner):
-                            go("content", cfg, [mk_line([t1, t2], [d0, d1, d2])])
+                    for d0, d1, d2 in _pair_space(tier, unit["cfg"], t1, t2):
+                        go("content", cfg, [mk_line([t1, t2], [d0, d1, d2])])
             t1 = unit["t1"][0]
             res.samples.append({"path": "content", "cfg": cfg, "lines": [mk_line([t1, (t1 + 7) % NT], [" ", ":", ""])]})
         elif part == "singles":
             cfg = cfgs[unit["cfg"]]
+            files = ("file",) if cfg.get("allow") else ("file", "write", "dswrite")
+            small = set(D_RED + IPV4_RIGHT)
             for t1 in range(NT):
-                for d0 in D_FULL:
-                    for d2 in _after(t1, D_FULL):
+                for d0 in _left(D_FULL):
+                    for d2 in _right(t1, D_FULL):
                         st = [mk_line([t1], [d0, d2])]
                         go("content", cfg, st)
-                        if tier == "thorough" or (d0 in D_RED and (d2 in D_RED or d2 in IPV4_RIGHT)):
-                            go("file", cfg, st)
-                            go("write", cfg, st)
+                        go("content-str", cfg, st)
+                        if tier == "thorough" or (d0 in small and d2 in small):
+                            for path in files:
+                                go(path, cfg, st)
         elif part == "paths":
             # pairs at the line boundaries through the two file paths (the terminator is what differs there)
             cfg = cfgs[unit["cfg"]]
-            inner = D_FULL[1:] if tier == "thorough" else (D_RED[1:] if unit["cfg"] == 0 else [" ", ":"])
+            files = ("file",) if cfg.get("allow") else ("file", "write")
+            base = D_FULL[1:] if tier == "thorough" else (D_RED[1:] if unit["cfg"] == 0 else [" ", ":"])
             for t1 in range(NT):
                 for t2 in range(NT):
-                    for d1 in _after(t1, inner):
-                        for d2 in _after(t2, [""]):
+                    for d1 in _inner(t1, base, glue=[""]):
+                        for d2 in [""] + (IPV4_RIGHT if _is_ip(t2) else []):
                             st = [mk_line([t1, t2], ["", d1, d2])]
-                            go("file", cfg, st)
-                            go("write", cfg, st)
-            res.samples.append({"path": "write", "cfg": cfg, "lines": [mk_line([0, 11], ["", ":", ""])]})
+                            for path in files:
+                                go(path, cfg, st)
+            res.samples.append({"path": "write" if "write" in files else "file", "cfg": cfg,
+                                "lines": [mk_line([0, 11], ["", ":", ""])]})
         elif part == "twolines":
             cfg = cfgs[0]
             singles = _two_line_singles(tier)
             for a in singles[unit["lo"]:unit["hi"]]:
                 for b in singles:
-                    st = [mk_line([a[0]], [a[1], a[2]], 0), mk_line([b[0]], [b[1], b[2]], 1)]
-                    for path in ("content", "file", "write"):
+                    st = [_one_line(a, 0), _one_line(b, 1)]
+                    for path in ("content", "content-2calls", "file", "write"):
                         go(path, cfg, st)
-            res.samples.append({"path": "file", "cfg": cfg, "lines": [mk_line([1], ["", ""], 0), mk_line([0], [" ", ":"], 1)]})
+            res.samples.append({"path": "content-2calls", "cfg": cfg, "lines": [mk_line([1], ["", ""], 0), mk_line([0], [" ", ":"], 1)]})
         elif part == "triples":
             cfg = cfgs[0]
             t1, t2 = unit["t1"], unit["t2"]
             for t3 in range(NT):
                 for d0 in D_MIN:
-                    for d1 in _after(t1, D_RED[1:]):
-                        for d2 in _after(t2, D_RED[1:]):
-                            for d3 in _after(t3, D_MIN):
+                    for d1 in _inner(t1, D_RED[1:], glue=[""]):
+                        for d2 in _inner(t2, D_RED[1:], glue=[""]):
+                            for d3 in D_MIN + (IPV4_RIGHT if _is_ip(t3) else []):
                                 go("content", cfg, [mk_line([t1, t2, t3], [d0, d1, d2, d3])])
         elif part == "hosttriples":
             cfg = cfgs[0]
             hosts = [i for i, t in enumerate(TOKENS) if t[0] == "host"]
             for t1, t2, t3 in itertools.product(hosts, repeat=3):
-                for d0 in D_MIN:
-                    for d1 in (" ", ":", "-"):
-                        for d2 in (" ", ":", "-"):
-                            for d3 in D_MIN:
-                                go("content", cfg, [mk_line([t1, t2, t3], [d0, d1, d2, d3])])
+                for d0, d3 in DIAG3:
+                    for d1 in (" ", ":", "-", "", "_"):
+                        for d2 in (" ", ":", "-", "", "_"):
+                            go("content", cfg, [mk_line([t1, t2, t3], [d0, d1, d2, d3])])
+        elif part == "width":
+            # the IPv4 keep-width variant (netstat): singles of every token, pairs with an address in them
+            cfg = cfgs[0]
+            ipish = [i for i, t in enumerate(TOKENS) if t[0] in ("ip", "lo")]
+            for t1 in range(NT):
+                for d0 in D_RED:
+                    for d2 in _right(t1, D_RED):
+                        st = [mk_line([t1], [d0, d2])]
+                        for path in WIDTH_PATHS:
+                            go(path, cfg, st)
+            for t1 in range(NT):
+                for t2 in range(NT):
+                    if t1 in ipish or t2 in ipish:
+                        for d0, d2 in [("", ""), (" ", " ")] + ([("", w) for w in IPV4_RIGHT] if _is_ip(t2) else []):
+                            for d1 in _inner(t1, D_RED[1:], glue=[""]):
+                                go("content-width", cfg, [mk_line([t1, t2], [d0, d1, d2])])
+            res.samples.append({"path": "file-netstat", "cfg": cfg, "lines": [mk_line([3], ["", " "])]})
+        elif part == "patvariants":
+            # falsy-but-real pattern entries: the empty pattern is contained in every line, so every line goes
+            for pv in sorted(PAT_VARIANTS):
+                cfg = dict(DEFAULT_CFG, pat=pv)
+                for t1 in range(NT):
+                    for d0 in D_MIN:
+                        for d2 in D_MIN:
+                            st = [mk_line([t1], [d0, d2])]
+                            for path in ("content", "content-str", "file", "write"):
+                                go(path, cfg, st)
+                for t1 in range(NT):
+                    st = [mk_line([t1], ["", ""], 0), mk_line([NT - 1], ["", ""], 1)]
+                    for path in ("content", "file", "write"):
+                        go(path, cfg, st)
+        elif part == "kwlists":
+            for kws in keyword_list_variants():
+                cfg = dict(DEFAULT_CFG, kw=list(kws))
+                toks = [["kw", k] for k in kws] + [["word", "zzz"], ["ip", "10.1.1.1"]]
+                for a in toks:
+                    for d0 in ["", "x"]:
+                        for d2 in ["", "x"]:
+                            st = [mk_line_tok([a], [d0, d2])]
+                            go("content", cfg, st)
+                            go("content-str", cfg, st)
+                    for b in toks:
+                        for d1 in [" ", "", ":", "-"]:
+                            st = [mk_line_tok([a, b], ["", d1, ""])]
+                            go("content", cfg, st)
+                            go("file", cfg, st)
+            res.samples.append({"path": "content", "cfg": dict(DEFAULT_CFG, kw=keyword_list_variants()[0]),
+                                "lines": [mk_line_tok([["kw", "K1"], ["kw", "K10"]], ["", " ", ""])]})
         else:
             raise ValueError(part)
     finally:
         shutil.rmtree(scratch, ignore_errors=True)
     for k, n in npath.items():
-        if n:
-            res.stat("cases_via_" + k, n)
+        res.stat("cases_via_" + k, n)
     res.stat("cases_in_" + part, res.evals)
-    res.maxi("tokens_per_line", {"singles": 1, "twolines": 1, "triples": 3, "hosttriples": 3}.get(part, 2))
-    res.maxi("lines_per_content", 2 if part == "twolines" else 1)
+    res.maxi("tokens_per_line", {"singles": 1, "twolines": 1, "patvariants": 1, "triples": 3, "hosttriples": 3}.get(part, 2))
+    res.maxi("lines_per_content", 2 if part in ("twolines", "patvariants") else 1)
     return res
 
 
